@@ -16,7 +16,7 @@ VARIABLES d, calls, p
 vars == <<d, calls, p>>
 
 AttrVals == IF Rich THEN {"lo", "min", "in", "max", "hi"} ELSE {"lo", "in", "hi"}
-ClockVals == IF Rich THEN {"below", "min", "in", "max", "above"} ELSE {"below", "in", "above"}
+ClockVals == IF Rich THEN {"below", "min", "one", "in", "max", "above"} ELSE {"below", "one", "in", "above"}     \* "one": exactly 1.0, the rate a fast path may take for "nothing set"
 
 SetterCalls ==
   {[f |-> "mods", v |-> m, w |-> FALSE] : m \in {"NM", "HR", "HDDT"}}
@@ -28,7 +28,7 @@ SetterCalls ==
 
 EntrySetterCalls ==
   {[f |-> "mods", v |-> "HR", w |-> FALSE], [f |-> "clock", v |-> "in", w |-> FALSE],
-   [f |-> "passed", v |-> "p2", w |-> FALSE], [f |-> "passed", v |-> "p1000", w |-> FALSE],
+   [f |-> "passed", v |-> "p2", w |-> FALSE], [f |-> "passed", v |-> "p1000", w |-> FALSE], [f |-> "passed", v |-> "p0", w |-> FALSE],
    [f |-> "ar", v |-> "in", w |-> FALSE], [f |-> "od", v |-> "in", w |-> TRUE], [f |-> "lazer", v |-> "F", w |-> FALSE],
    [f |-> "cs", v |-> "in", w |-> FALSE], [f |-> "hp", v |-> "in", w |-> TRUE], [f |-> "hro", v |-> "T", w |-> FALSE]}
 
